@@ -120,6 +120,9 @@ pub struct LifeCfg {
     /// fault class F2: every nested send of every end-of-epoch tick is failed (one at a time);
     /// afterwards the walk continues in recovery mode (default behaviour only, generic oracles)
     pub tick_faults: bool,
+    /// a second active miner whose deadlines end at the same epochs as the subject's (it proves
+    /// every window by default); judged by the model-free oracles only
+    pub bystander: bool,
 }
 
 pub struct W {
@@ -333,6 +336,8 @@ impl Life {
         }
         let Some(v) = view(vm, w.cast.m) else { return (Some("miner actor disappeared".into()), known) };
         let vb = view(vm, w.cast.bm).unwrap();
+        let extras: Vec<MinerView> = w.cast.extra.iter().map(|x| view(vm, *x).unwrap()).collect();
+        let all: Vec<MinerView> = [v.clone(), vb.clone()].into_iter().chain(extras.iter().cloned()).collect();
         let o = self.cfg.oracles;
         let r = (|| -> Result<(), String> {
             if m.recovery {
@@ -343,12 +348,15 @@ impl Life {
                 if o.c03 {
                     check_ledgers(&v)?;
                     check_ledgers(&vb)?;
-                    if let Some(k) = self.check_pledge_total(w, &[v.clone(), vb.clone()])? {
+                    if let Some(k) = self.check_pledge_total(w, &all)? {
                         known.push(k);
                     }
                 }
                 // a miner whose callback was failed has lost its claim and its cron by design
-                let with_claim: Vec<MinerView> = [v.clone(), vb.clone()].into_iter().filter(|x| x.claim.is_some()).collect();
+                for x in &extras {
+                    check_bookkeeping(x, &vm.policy)?;
+                }
+                let with_claim: Vec<MinerView> = all.iter().filter(|x| x.claim.is_some()).cloned().collect();
                 if m.recovery_settled {
                     match self.check_cron_schedule(w, &with_claim) {
                         Ok(Some(k)) => known.push(k),
@@ -369,6 +377,9 @@ impl Life {
             if o.c04 {
                 check_bookkeeping(&v, &vm.policy)?;
                 check_bookkeeping(&vb, &vm.policy)?;
+                for x in &extras {
+                    check_bookkeeping(x, &vm.policy)?;
+                }
                 for s in v.sectors.keys() {
                     if !m.ever.contains(s) {
                         return Err(format!("sector {s} exists on chain but was never committed in this history"));
@@ -378,12 +389,12 @@ impl Life {
             if o.c03 {
                 check_ledgers(&v)?;
                 check_ledgers(&vb)?;
-                if let Some(k) = self.check_pledge_total(w, &[v.clone(), vb.clone()])? {
+                if let Some(k) = self.check_pledge_total(w, &all)? {
                     known.push(k);
                 }
             }
             if o.c05 {
-                if let Some(k) = self.check_cron_schedule(w, &[v.clone(), vb.clone()])? {
+                if let Some(k) = self.check_cron_schedule(w, &all)? {
                     known.push(k);
                 }
             }
@@ -541,6 +552,21 @@ impl Life {
             .collect()
     }
 
+    /// Bystander miners prove every window that opens now (default behaviour).
+    fn bystander_posts(vm: &Vm, cast: &MinerCast) -> Result<(), String> {
+        for x in &cast.extra {
+            let v = view(vm, *x).unwrap();
+            if v.dl_info.open == vm.epoch() {
+                let parts = Self::default_post_parts(&v);
+                if !parts.is_empty() {
+                    let r = submit_post(vm, cast.c, *x, v.dl_info.index, &parts, false);
+                    all_ok(&r)?;
+                }
+            }
+        }
+        Ok(())
+    }
+
     fn mk_base(&self, vm: &Vm, cast: &MinerCast, name: &str, idx: usize) -> LifeM {
         let v = view(vm, cast.m).unwrap();
         let d0 = (v.dl_info.index + 2) % 4;
@@ -612,6 +638,7 @@ impl Life {
                 }
                 let pre = view(vm, cast.m).unwrap();
                 let di = pre.dl_info;
+                Self::bystander_posts(vm, cast).expect("SETUP-FAILED bystander PoSt");
                 let r = vm.tick();
                 assert!(r.flat().iter().all(|i| i.ok()), "SETUP-FAILED tick: {}", r.tree());
                 if vm.epoch() - 1 == di.last() && pre.st.deadline_cron_active && di.period_started() {
@@ -646,6 +673,7 @@ impl Life {
                 }
                 let pre = view(vm, cast.m).unwrap();
                 let di = pre.dl_info;
+                Self::bystander_posts(vm, cast).expect("SETUP-FAILED bystander PoSt");
                 let r = vm.tick();
                 assert!(r.flat().iter().all(|i| i.ok()), "SETUP-FAILED tick: {}", r.tree());
                 if vm.epoch() - 1 == di.last() && pre.st.deadline_cron_active && di.period_started() {
@@ -690,9 +718,35 @@ impl Scenario for Life {
     fn worker(&self, store: &Store) -> W {
         let vm = Vm::genesis(store.clone(), if self.cfg.big { big_policy() } else { small_policy() });
         let cast = setup_with(&vm, true, self.cfg.poor.clone());
+        let mut cast = cast;
         let mut deposits = BTreeMap::new();
         deposits.insert(cast.m, cast.dep_m.clone());
         deposits.insert(cast.bm, cast.dep_bm.clone());
+        if self.cfg.bystander {
+            // a miner whose deadline boundaries coincide with the subject's (the offset is a hash
+            // of address and epoch: retry at later epochs until they agree modulo the window)
+            vm.bump_nonce.set(true);
+            let win = vm.policy.wpost_challenge_window;
+            let want = view(&vm, cast.m).unwrap().dl_info.close.rem_euclid(win);
+            let mut found = None;
+            for _ in 0..64 {
+                let snap = vm.snapshot();
+                let x = create_miner(&vm, cast.c, cast.c, post_proof(&vm), &fil(1000)).unwrap_or_else(|r| panic!("SETUP-FAILED bystander miner: {}", r.tree()));
+                if view(&vm, x).unwrap().dl_info.close.rem_euclid(win) == want {
+                    found = Some(x);
+                    break;
+                }
+                vm.restore(&snap);
+                vm.tick();
+            }
+            let x = found.expect("SETUP-FAILED: no bystander miner with aligned deadlines");
+            let vx = view(&vm, x).unwrap();
+            let r = ni_commit(&vm, cast.c, x, &[1, 2], (vx.dl_info.index + 2) % 4, vm.epoch() + 300);
+            assert!(r.ok(), "SETUP-FAILED bystander NI commit: {}", r.tree());
+            deposits.insert(x, vm.state_of::<fil_actor_miner::State>(x).unwrap().locked_funds);
+            cast.extra.push(x);
+            vm.bump_nonce.set(false);
+        }
         let g = vm.snapshot();
         let mut bases = vec![];
         for (i, b) in self.cfg.bases.iter().enumerate() {
@@ -853,6 +907,9 @@ impl Scenario for Life {
                         }
                     }
                     checkpoint(&m, "after the default PoSt", &mut viol, &mut known);
+                }
+                if let Err(e) = Self::bystander_posts(vm, c) {
+                    bad!(e);
                 }
                 let pre = view(vm, c.m).unwrap();
                 if self.cfg.tick_faults {
